@@ -79,6 +79,9 @@ def parse(out: str, rc: int, wall: float) -> TLCResult:
     m = _RE_ACTPROP.search(out)
     if m and r.violated is None:
         r.violated, r.violation_kind = m.group(1), "action_property"
+    m = re.search(r"Error: Temporal property (\S+) was violated", out)
+    if m and r.violated is None:
+        r.violated, r.violation_kind = m.group(1), "temporal"
     if r.violated is None and "Temporal properties were violated" in out:
         r.violated, r.violation_kind = "temporal", "temporal"
     m = _RE_ASSUME.search(out)
